@@ -609,6 +609,11 @@ class Evaluator:
             if isinstance(obj, type) and issubclass(obj, BaseException):
                 return ClassRef("builtins:" + name)
             return Builtin(name)
+        if fi is not None and getattr(fi, "node", None) is not None:
+            for sub in ast.walk(fi.node):
+                if isinstance(sub, ast.Name) and sub.id == name and isinstance(sub.ctx, ast.Store):
+                    # a local variable read on a path that never assigned it: Python raises UnboundLocalError
+                    raise Raised("UnboundLocalError", node, f"local variable '{name}' referenced before assignment")
         raise Unmodelled(f"unbound name {name}", node)
 
     def e_Tuple(self, e, env, fi):
@@ -705,6 +710,15 @@ class Evaluator:
         if isinstance(base, BoundMethod):  # attribute of an unmodelled attribute of an opaque object
             return Obj("opaque", f"{getattr(base.recv, 'name', '?')}.{base.name}.{attr}", (), {"__of__": base.recv})
         if isinstance(base, ExtRef):
+            if base.path.startswith("pkg:") and "." not in base.path:
+                modname = base.path[4:]
+                q = f"{modname}:{attr}"
+                if q in self.P.functions:
+                    return FuncV(self.P.functions[q], self.P.functions[q].node, None, modname)
+                if q in self.P.classes:
+                    return ClassRef(q)
+                if modname in self.P.modules and attr in self.P.modules[modname].consts:
+                    return _lift(self.P.modules[modname].consts[attr])
             return ExtRef(base.path + "." + attr)
         if isinstance(base, ClassRef):
             q = f"{base.q}.{attr}"
